@@ -169,7 +169,6 @@ type unrepresentable struct{ v uint64 }
 
 func readHits(pl segment.PostingsList, pre *segment.PostingsIterator) (n int, hits []OHit, err error) {
 	n = ckInt(pl.Count())
-	hits = []OHit{}
 	var it segment.PostingsIterator
 	if pre != nil {
 		it = pl.Iterator(true, true, true, *pre)
@@ -177,10 +176,16 @@ func readHits(pl segment.PostingsList, pre *segment.PostingsIterator) (n int, hi
 	} else {
 		it = pl.Iterator(true, true, true, nil)
 	}
+	hits, err = drain(it)
+	return n, hits, err
+}
+
+func drain(it segment.PostingsIterator) (hits []OHit, err error) {
+	hits = []OHit{}
 	for {
 		p, e := it.Next()
 		if e != nil {
-			return n, hits, e
+			return hits, e
 		}
 		if p == nil {
 			break
@@ -196,8 +201,11 @@ func readHits(pl segment.PostingsList, pre *segment.PostingsIterator) (n int, hi
 				E: ckInt(l.End()), AP: ap2ints(l.ArrayPositions())})
 		}
 		hits = append(hits, h)
+		if len(hits) > 1<<20 {
+			return hits, fmt.Errorf("iterator does not end")
+		}
 	}
-	return n, hits, nil
+	return hits, nil
 }
 
 func bmOf(xs []int) *roaring.Bitmap {
@@ -337,7 +345,20 @@ func observeDicts(seg segment.Segment, pr *Probes, o *Obs) error {
 					o.Errs = append(o.Errs, OErr{Asp: "reuse", Msg: e.Error()})
 					return
 				}
-				n, hits, e := readHits(prePL, &preIt)
+				// the reused iterator is obtained first and read last: in between, an iterator over a missing
+				// term's list (fresh objects) must be empty whatever other iterators are alive
+				n := ckInt(prePL.Count())
+				preIt = prePL.Iterator(true, true, true, preIt)
+				miss, e := d.PostingsList([]byte("absent\x01term"), nil, nil)
+				if e == nil {
+					mn, mhits, me := readHits(miss, nil)
+					if me != nil {
+						o.Errs = append(o.Errs, OErr{Asp: "reuse", Msg: me.Error()})
+					} else {
+						o.Posts = append(o.Posts, OPost{F: B(f), T: B("absent\x01term"), N: mn, Hits: mhits, Pre: true})
+					}
+				}
+				hits, e := drain(preIt)
 				if e != nil {
 					o.Errs = append(o.Errs, OErr{Asp: "reuse", Msg: e.Error()})
 					return
